@@ -151,6 +151,23 @@ class MemoryStore(Store):
         return codec_registry()
 
 
+def path_segments(path: DDSPath) -> List[str]:
+    """
+    The non-empty segments of a path, which determine the location of the path in a store.
+
+    The segments '.' and '..' are refused: they would designate the location of another path, or a location outside
+    of the store.
+    """
+    segments = [s for s in path.split("/") if s]
+    if not segments or any(s in (".", "..") for s in segments):
+        raise DDSException(
+            f"The path {path} cannot be stored: a path must have at least one segment and "
+            f"the segments '.' and '..' are not allowed.",
+            DDSErrorCode.STORE_PATH_NOT_SUPPORTED,
+        )
+    return segments
+
+
 class LocalFileStore(Store):
     def __init__(self, internal_dir: str, data_dir: str, create_dirs: bool = True):
         self._root = internal_dir
@@ -226,7 +243,8 @@ class LocalFileStore(Store):
 
     def sync_paths(self, paths: "OrderedDict[DDSPath, PyHash]") -> None:
         for (path, key) in paths.items():
-            splits = [s.replace("/", "") for s in os.path.split(path)]
+            # One directory per segment: two different paths never share a location.
+            splits = path_segments(path)
             loc_dir = os.path.join(self._data_root, *(splits[:-1]))
             loc = os.path.join(loc_dir, splits[-1])
             if not os.path.exists(loc_dir):
@@ -246,7 +264,7 @@ class LocalFileStore(Store):
         for path in paths:
             if path not in res:
                 # Assemble the path
-                splits = [s.replace("/", "") for s in os.path.split(path)]
+                splits = path_segments(path)
                 loc_dir = os.path.join(self._data_root, *(splits[:-1]))
                 loc = os.path.join(loc_dir, splits[-1])
                 if not os.path.exists(loc_dir):
